@@ -1470,6 +1470,8 @@ structure MGood (C : Cfg) (s : Stored) (l : List Stored) : Prop where
   link : Link s l
   sealOk : ∃ a, s.hdr.signer = some a
   wf : MWF C s.hdr
+  /-- `LastVoteParentOrEpoch` as recorded by `addHeader` -/
+  vlink : ∀ p rest, l = p :: rest → s.epochParent = lastVoteLink C p s.hdr
 
 instance (C : Cfg) : HasLink (MGood C) := ⟨fun h => h.link⟩
 
@@ -1747,7 +1749,7 @@ theorem syncHeader_inv {C : Cfg} {st : St} (hI : MInv C st) (h : Hdr) : MInv C (
       · exact hs
       · intro he; rw [he, h1] at hs; cases hs
     have hgood : MGood C ⟨h, h.difficulty + p.td, lastVoteLink C p h⟩ (p :: l) :=
-      ⟨⟨p, l, rfl, hnum, rfl⟩, ⟨signer, hsig⟩, hwf⟩
+      ⟨⟨p, l, rfl, hnum, rfl⟩, ⟨signer, hsig⟩, hwf, by intro p' rest' he; simp at he; rw [← he.1]⟩
     constructor
     · intro hn; rw [ha2, h4] at hn; cases hn
     · intro g' hg'
@@ -1848,6 +1850,214 @@ theorem run_inv {C : Cfg} : ∀ (ops : List Msc.Op) {st : St}, MInv C st → MIn
     | genesis g => exact syncGenesis_inv hI g
     | hdr h => exact syncHeader_inv hI h
 
+
+/-! ### The walk over `LastVoteParentOrEpoch` links collects exactly the votes since the nearest checkpoint -/
+
+def isCp (C : Cfg) (s : Stored) : Bool := s.hdr.number % C.epoch == 0
+def isVote (s : Stored) : Bool := s.hdr.coinbase != zeroAddr
+
+/-- a member of a chain has no `LastVoteParentOrEpoch` link exactly when it is a checkpoint (the trust root is one) -/
+theorem link_none_iff {C : Cfg} {st : St} {g : Genesis} (hgn : g.hdr.number % C.epoch = 0) :
+    ∀ {id c}, MChain C st g id c → ∀ s rest, c = s :: rest → (s.epochParent = none ↔ isCp C s = true) := by
+  intro id c h
+  induction h with
+  | root _ =>
+    intro s rest hc
+    simp at hc
+    obtain ⟨rfl, rfl⟩ := hc
+    simp [rootOf, isCp, hgn]
+  | step id s l hne hs hid hc hg ih =>
+    intro s' rest hc'
+    simp at hc'
+    obtain ⟨rfl, rfl⟩ := hc'
+    obtain ⟨p, rest', hl, _, _⟩ := hg.link
+    rw [hg.vlink p rest' hl]
+    have ihp := ih p rest' hl
+    unfold lastVoteLink
+    by_cases hcp : s.hdr.number % C.epoch = 0
+    · simp [hcp, isCp]
+    · have : isCp C s = false := by simp [isCp, hcp]
+      simp only [this, Bool.false_eq_true, iff_false]
+      simp only [bne_iff_ne, ne_eq, hcp, not_false_eq_true, if_true]
+      by_cases hp1 : p.hdr.number % C.epoch = 0
+      · simp [hp1]
+      · by_cases hp2 : p.hdr.coinbase = zeroAddr
+        · simp [hp1, hp2]
+          intro hn
+          have := ihp.mp hn
+          simp [isCp, hp1] at this
+        · simp [hp1, hp2]
+
+theorem collect_fuel_mono (hdrs : Id → Option Stored) :
+    ∀ (fuel : Nat) (id : Id) (acc : List Hdr) (r : Stored × List Hdr),
+      collect hdrs fuel id acc = .ok r → collect hdrs (fuel + 1) id acc = .ok r := by
+  intro fuel
+  induction fuel with
+  | zero => intro id acc r h; simp [collect] at h
+  | succ n ih =>
+    intro id acc r h
+    simp only [collect] at h ⊢
+    cases hs : hdrs id with
+    | none => rw [hs] at h; cases h
+    | some s =>
+      rw [hs] at h
+      simp only at h ⊢
+      cases he : s.epochParent with
+      | none => rw [he] at h; exact h
+      | some next =>
+        rw [he] at h
+        simp only at h ⊢
+        exact ih _ _ _ h
+
+/-- the vote headers above the nearest checkpoint of a chain, newest first -/
+def votesOf (C : Cfg) (c : List Stored) : List Hdr :=
+  (((sinceCheckpoint C c).1.filter (fun s => s.hdr.coinbase != zeroAddr))).map (·.hdr)
+
+theorem collect_spec {C : Cfg} {st : St} {g : Genesis} (hgn : g.hdr.number % C.epoch = 0) :
+    ∀ {id c}, MChain C st g id c → ∀ (fuel : Nat) (acc : List Hdr), c.length ≤ fuel →
+      ∃ cp, (sinceCheckpoint C c).2 = some cp ∧ collect st.hdrs fuel id acc = .ok (cp, acc ++ votesOf C c) := by
+  intro id c h
+  induction h with
+  | root h0 =>
+    intro fuel acc hf
+    cases fuel with
+    | zero => simp at hf
+    | succ f =>
+      refine ⟨rootOf g, by simp [sinceCheckpoint], ?_⟩
+      simp [collect, h0, rootOf, votesOf, sinceCheckpoint]
+  | step id s l hne hs hid hc hg ih =>
+    intro fuel acc hf
+    cases fuel with
+    | zero => simp at hf
+    | succ f =>
+      have hchain : MChain C st g id (s :: l) := .step id s l hne hs hid hc hg
+      have hnone := link_none_iff hgn hchain s l rfl
+      obtain ⟨p, rest', hl, _, _⟩ := hg.link
+      subst hl
+      by_cases hcp : isCp C s = true
+      · -- a checkpoint ends the walk
+        have he := hnone.mpr hcp
+        have hcp' : (s.hdr.number % C.epoch == 0) = true := hcp
+        refine ⟨s, by simp [sinceCheckpoint, hcp'], ?_⟩
+        simp [collect, hs, he, votesOf, sinceCheckpoint, hcp']
+      · have hcpf : (s.hdr.number % C.epoch == 0) = false := by simpa [isCp] using hcp
+        have hne' : s.epochParent ≠ none := fun hn => hcp (hnone.mp hn)
+        obtain ⟨y, hy⟩ := Option.ne_none_iff_exists'.mp hne'
+        have hlen : (p :: rest').length ≤ f := by simp at hf ⊢; omega
+        -- the accumulator after visiting s
+        obtain ⟨cp, hcp2, hcol⟩ := ih f (if s.hdr.coinbase != zeroAddr then acc ++ [s.hdr] else acc) hlen
+        refine ⟨cp, by simp [sinceCheckpoint, hcpf, hcp2], ?_⟩
+        have hvotes : acc ++ votesOf C (s :: p :: rest') =
+            (if s.hdr.coinbase != zeroAddr then acc ++ [s.hdr] else acc) ++ votesOf C (p :: rest') := by
+          simp only [votesOf, sinceCheckpoint, hcpf, Bool.false_eq_true, if_false, List.filter_cons]
+          by_cases hv : (s.hdr.coinbase != zeroAddr) = true
+          · simp [hv]
+          · have hv' : (s.hdr.coinbase != zeroAddr) = false := by simpa using hv
+            simp [hv']
+        rw [hvotes]
+        simp only [collect, hs, hy]
+        -- where does the link of s point?
+        have hv := hg.vlink p rest' rfl
+        rw [hy] at hv
+        unfold lastVoteLink at hv
+        have hsn : (s.hdr.number % C.epoch != 0) = true := by simpa using hcpf
+        simp only [hsn, if_true] at hv
+        by_cases hp1 : (p.hdr.number % C.epoch == 0) = true
+        · simp only [hp1, if_true] at hv
+          have : y = p.hdr.id := (Option.some.inj hv)
+          rw [this, hc.head_id.1]
+          exact hcol
+        · simp only [hp1, Bool.false_eq_true, if_false] at hv
+          by_cases hp2 : (p.hdr.coinbase != zeroAddr) = true
+          · simp only [hp2, if_true] at hv
+            have : y = p.hdr.id := (Option.some.inj hv)
+            rw [this, hc.head_id.1]
+            exact hcol
+          · simp only [hp2, Bool.false_eq_true, if_false] at hv
+            -- p carries no vote and is no checkpoint: the walk from p goes on to the same header y without collecting p
+            have hps := hc.head_id.2
+            cases f with
+            | zero => simp at hlen
+            | succ f0 =>
+              simp only [collect, hps, ← hv] at hcol
+              have hp2' : (p.hdr.coinbase != zeroAddr) = false := by simpa using hp2
+              simp only [hp2', Bool.false_eq_true, if_false] at hcol
+              exact collect_fuel_mono _ _ _ _ _ hcol
+
+/-- the snapshot part of `applyAll` does not depend on the target signer -/
+def applySnap : Snap → List Hdr → Except Rej Snap
+  | s, [] => .ok s
+  | s, h :: hs => match applyOne s h with
+    | .error e => .error e
+    | .ok s' => applySnap s' hs
+
+theorem applyAll_snap (target : Addr) :
+    ∀ (hs : List Hdr) (s : Snap) (ls : Option Nat),
+      (∀ sn x, applyAll target s ls hs = .ok (sn, x) → applySnap s hs = .ok sn) ∧
+      (∀ sn, applySnap s hs = .ok sn → ∃ x, applyAll target s ls hs = .ok (sn, x)) := by
+  intro hs
+  induction hs with
+  | nil =>
+    intro s ls
+    constructor
+    · intro sn x h; simp [applyAll] at h; simp [applySnap, h.1]
+    · intro sn h; simp [applySnap] at h; exact ⟨ls, by simp [applyAll, h]⟩
+  | cons h hs ih =>
+    intro s ls
+    simp only [applyAll, applySnap]
+    cases ha : applyOne s h with
+    | error e => simp
+    | ok s' =>
+      simp only
+      exact ih s' _
+
+/-- On a chain, a successful `snapshot` of the code is the clique replay over the plain parent chain. -/
+theorem snapshot_is_replay {C : Cfg} {st : St} {g : Genesis} (hgn : g.hdr.number % C.epoch = 0)
+    {p : Stored} {l : List Stored} (hc : MChain C st g p.hdr.id (p :: l)) {target : Addr} {snap : Snap} {ls : Option Nat}
+    (h : Msc.snapshot st g p.hdr.number p.hdr.id target = .ok snap ls) : Msc.replay C (p :: l) = some snap := by
+  unfold Msc.snapshot at h
+  by_cases c0 : p.hdr.number < g.hdr.number
+  · rw [if_pos c0] at h; cases h
+  rw [if_neg c0] at h
+  have hlen := hc.length_eq p l rfl
+  obtain ⟨cp, hcp, hcol⟩ := collect_spec hgn hc (p.hdr.number + 2) [] (by simp; omega)
+  rw [hcol] at h
+  simp only [List.nil_append] at h
+  by_cases c1 : cp.hdr.extra.length < extraVanity + extraSeal
+  · rw [if_pos c1] at h; cases h
+  rw [if_neg c1] at h
+  cases hs : cp.hdr.signer with
+  | none => rw [hs] at h; cases h
+  | some cps =>
+    rw [hs] at h
+    simp only at h
+    unfold snapshotTail at h
+    cases hap : applyAll target ⟨cp.hdr.vals.foldl (fun acc a => insertSigner a acc) [], [], []⟩
+        (if cps == target then some cp.hdr.number else none) (votesOf C (p :: l)).reverse with
+    | error e => rw [hap] at h; cases h
+    | ok r =>
+      obtain ⟨sn, ls1⟩ := r
+      rw [hap] at h
+      simp only at h
+      cases hrs : recentSearch st.hdrs g.hdr.number target (sn.signers.length / 2) p.hdr.number p.hdr.id ls1 with
+      | error e => rw [hrs] at h; cases h
+      | ok ls2 =>
+        rw [hrs] at h
+        injection h with h1 h2
+        subst h1
+        have hsn := (applyAll_snap target _ _ _).1 sn ls1 hap
+        obtain ⟨x, hx⟩ := (applyAll_snap zeroAddr (votesOf C (p :: l)).reverse
+          ⟨cp.hdr.vals.foldl (fun acc a => insertSigner a acc) [], [], []⟩ none).2 sn hsn
+        unfold Msc.replay
+        have hsc : sinceCheckpoint C (p :: l) = ((sinceCheckpoint C (p :: l)).1, some cp) := by
+          rw [← hcp]
+        rw [hsc]
+        simp only
+        have hrev : (votesOf C (p :: l)).reverse =
+            (((sinceCheckpoint C (p :: l)).1.filter (fun s => s.hdr.coinbase != zeroAddr)).reverse).map (·.hdr) := by
+          simp [votesOf, List.map_reverse]
+        rw [← hrev, hx]
+
 /-- What acceptance of a header by msc establishes, in every state satisfying the invariant: the seal recovers to an
 authorized signer of the snapshot the code computes for the parent, who sealed none of the ⌊|signers|/2⌋ nearest
 ancestors (other than a trust root at block 0), with the in-turn / no-turn difficulty and the checkpoint list. -/
@@ -1858,7 +2068,7 @@ theorem accept_facts {C : Cfg} {st st' : St} (hI : MInv C st) {h : Hdr} (hok : M
       (∀ a ∈ (p :: l).take (snap.signers.length / 2), a.hdr.signer = some signer → a.hdr.number = 0) ∧
       (h.number % snap.signers.length = indexOf signer snap.signers → h.difficulty = diffInTurn) ∧
       (h.number % snap.signers.length ≠ indexOf signer snap.signers → h.difficulty = diffNoTurn) ∧
-      (h.number % C.epoch = 0 → h.valBytes = snap.signers.flatten) ∧ MWF C h := by
+      (h.number % C.epoch = 0 → h.valBytes = snap.signers.flatten) ∧ MWF C h ∧ Msc.replay C (p :: l) = some snap := by
   rcases syncHeader_cases C st h with hsame | ⟨p, g, snap, st2, h1, h2, h4, h3, h10, h11⟩
   · -- a rejected or skipped header does not report ok
     exfalso
@@ -1898,13 +2108,18 @@ theorem accept_facts {C : Cfg} {st st' : St} (hI : MInv C st) {h : Hdr} (hok : M
                 have := congrArg (fun s => s.hdrs h.id) ha1
                 simp only [ha3, upd_same, h1] at this
                 cases this
-  · obtain ⟨hroot, _, _, hall, _⟩ := hI.gen g h4
+  · obtain ⟨hroot, hgn, _, hall, _⟩ := hI.gen g h4
     obtain ⟨l, hc0⟩ := hall h.parent p h2
     have hp : h.parent = p.hdr.id := hc0.head_id.1.symm
     obtain ⟨hwf, hnum, signer, ls, hsig, hsn, hmem, hcp, hrec, ht1, ht2⟩ := verifyHeader_ok h3
-    refine ⟨g, p, l, signer, snap, ls, h4, h2, hc0.toChain, hnum, hsig, hsn, by simpa using hmem, ?_, ht1, ht2, hcp, hwf⟩
-    obtain ⟨ls1, hrs⟩ := snapshot_ok_search hsn
     have hpn : h.number - 1 = p.hdr.number := by omega
+    have hrep : Msc.replay C (p :: l) = some snap := by
+      have hc' : MChain C st g p.hdr.id (p :: l) := by rw [← hp]; exact hc0
+      have hsn' := hsn
+      rw [hpn, hp] at hsn'
+      exact snapshot_is_replay hgn hc' hsn'
+    refine ⟨g, p, l, signer, snap, ls, h4, h2, hc0.toChain, hnum, hsig, hsn, by simpa using hmem, ?_, ht1, ht2, hcp, hwf, hrep⟩
+    obtain ⟨ls1, hrs⟩ := snapshot_ok_search hsn
     rw [hpn] at hrs
     have hc : MChain C st g h.parent (p :: l) := hc0
     rcases recentSearch_spec signer _ hc rfl hrs with hnone | ⟨i, a, hi, hlt, hsg, hr, hmin⟩
